@@ -530,3 +530,45 @@ example : ((DFA.new 2 [4]).add 4 98 2 |>.add 2 97 4 |>.add 4 97 4).transPrefix 2
     ((NFA.new 1 [3]).add 3 98 [3, 1] |>.add 1 98 [] |>.add 1 E [3]).transPrefix 0 = [] ∧
     ((NFA.new 1 [3]).add 3 98 [3, 1] |>.add 1 98 [] |>.add 1 E [3]).transPrefix 5 = [(1, 0, [3]), (1, 98, []), (3, 98, [1, 3])] := by
   decide
+
+/-! ## `Final.Add`, and one object used several times in one call
+
+The exported field `Final` is a set the caller may add to in place (`X.Final.Add(s)`, Model: `addFinal`): the
+transition tables are untouched, the language grows by exactly the words that lead to `s`, the automaton stays
+well-formed.  Everything else the hardening round exercises needs no new operation of the Model: an operand list
+is a `List NFA` / `List DFA` of *values*, so `C13_union_lang`, `C13_concat_lang`, `C13_combine_lang`,
+`C13_combine_finalMap` already speak about lists in which the same automaton occurs several times (`a.Concat(a)`,
+`CombineDFA(d, d, d)`), and `C13_isomorphic_renamed` with the identity renaming about `a.Isomorphic(a)`. -/
+
+/-- `n.Final.Add(s)` on an NFA: accepted afterwards = accepted before, or some path from the start state spelling the
+word ends in `s`; `Accept` decides it; `WF` is kept. -/
+theorem C13_addFinal_nfa (n : NFA) (s : Int) (w : Word) :
+    ((n.addFinal s).lang w ↔ n.lang w ∨ Path n.Δ n.start w s) ∧
+    (∃ b, (n.addFinal s).accept w = .ok b ∧ (b = true ↔ n.lang w ∨ Path n.Δ n.start w s)) ∧
+    (n.WF → (n.addFinal s).WF) := by
+  refine ⟨n.addFinal_lang s w, ?_, fun h => h⟩
+  obtain ⟨b, hb, hl⟩ := (n.addFinal s).accept_spec w
+  exact ⟨b, hb, hl.trans (n.addFinal_lang s w)⟩
+
+example : ((NFA.new 0 [2] |>.add 0 E [1] |>.add 1 97 [2]).addFinal 1).accept [] = .ok true ∧
+    (NFA.new 0 [2] |>.add 0 E [1] |>.add 1 97 [2]).accept [] = .ok false := by decide
+
+/-- `d.Final.Add(s)` on a DFA: accepted afterwards = accepted before, or the run ends in `s` — for the language and
+for the executable `Accept`; a `Good` DFA stays `Good` (for `s ≠ -1`, which is not a state). -/
+theorem C13_addFinal_dfa (d : DFA) (s : Int) (w : Word) :
+    ((d.addFinal s).lang w ↔ d.lang w ∨ dfaRun d.δ (some d.start) w = some s) ∧
+    (d.addFinal s).accept w = (d.accept w || (w.foldl d.next d.start == s)) ∧
+    (d.Good → s ≠ -1 → (d.addFinal s).Good) :=
+  ⟨d.addFinal_lang s w, d.addFinal_accept s w, fun h hs => DFA.addFinal_good h s hs⟩
+
+example : (((DFA.new 2 [4]).add 2 97 4 |>.add 4 98 6).addFinal 6).accept [97, 98] = true ∧
+    ((DFA.new 2 [4]).add 2 97 4 |>.add 4 98 6).accept [97, 98] = false := by decide
+
+/-- the same object twice in one call, on the Model: `a.Concat(a)` for `a = a*b` (the witness of the seeded change
+C13-s2) accepts `abab` and `bb` and rejects `ab`; `CombineDFA(d, d)` has both operands accept in the same states -/
+example : (NFA.concat [NFA.new 0 [1] |>.add 0 97 [0] |>.add 0 98 [1], NFA.new 0 [1] |>.add 0 97 [0] |>.add 0 98 [1]]).accept [97, 98, 97, 98] = .ok true ∧
+    (NFA.concat [NFA.new 0 [1] |>.add 0 97 [0] |>.add 0 98 [1], NFA.new 0 [1] |>.add 0 97 [0] |>.add 0 98 [1]]).accept [98, 98] = .ok true ∧
+    (NFA.concat [NFA.new 0 [1] |>.add 0 97 [0] |>.add 0 98 [1], NFA.new 0 [1] |>.add 0 97 [0] |>.add 0 98 [1]]).accept [97, 98] = .ok false := by
+  decide
+example : combineDFA [(DFA.new 2 [4]).add 2 97 4, (DFA.new 2 [4]).add 2 97 4]
+    = .ok ((DFA.new 0 [1]).add 0 97 1, [[1], [1]]) := by decide
